@@ -4,4 +4,6 @@ set -e
 id=$1
 git -C /repo worktree add --detach /tmp/mut-$id HEAD >/dev/null 2>&1
 cp -al /repo/target /tmp/mut-$id-tgt
+# a hard-linked .cargo-lock would serialise every clone behind one lock: give each clone its own
+for f in $(find /tmp/mut-$id-tgt -name .cargo-lock); do rm -f $f; touch $f; done
 echo "WT=/tmp/mut-$id TGT=/tmp/mut-$id-tgt"
